@@ -67,7 +67,11 @@ def generate_graph(
     )
 
     all_modules = _append_external_modules_to_module_list(
-        all_modules, exclude_external_libraries, imports, root_path, external_exclusions
+        all_modules,
+        exclude_external_libraries,
+        _get_external_imports(imports, internal_module_prefix),
+        root_path,
+        external_exclusions,
     )
     return EvaluableArchitectureGraph(NetworkxGraph(all_modules, imports, level_limit))
 
@@ -102,6 +106,24 @@ def _append_external_modules_to_module_list(
         module
         for module in all_modules
         if module in internal_modules or not file_filter.is_excluded(module)
+    ]
+
+
+def _get_external_imports(
+    imports: Sequence[Import], internal_module_prefix: str
+) -> Sequence[Import]:
+    """Only imports of modules outside the internal name space can add modules to the graph. An internal importee
+    that is not among the parsed modules (for example because an exclusion pattern removed it) must not be
+    re-added just because external libraries are included."""
+    internal_root = internal_module_prefix.rstrip(".")
+
+    return [
+        i
+        for i in imports
+        if not (
+            i.importee() == internal_root
+            or i.importee().startswith(internal_root + ".")
+        )
     ]
 
 
